@@ -397,6 +397,15 @@ func (s *TermStore) Bin(op Op, a, b *Term) *Term {
 		if b.IsConst() && b.ConstBig().Sign() == 0 {
 			return a
 		}
+		if op == OLshr && b.IsConst() && b.C < uint64(a.W) && !a.IsConst() {
+			// all values of the interval share the bits above the shift: constant
+			if lo, hi := s.Interval(a); lo.Sign() > 0 || hi.Cmp(maxOfW(a.W)) < 0 {
+				l, h := new(big.Int).Rsh(lo, uint(b.C)), new(big.Int).Rsh(hi, uint(b.C))
+				if l.Cmp(h) == 0 {
+					return s.BVBig(l, a.W)
+				}
+			}
+		}
 		if op == OSub && a == b {
 			return s.BV(0, a.W)
 		}
@@ -1020,8 +1029,26 @@ func (s *TermStore) Refine(c *Term) {
 				s.ivmemo = map[*Term][2]*big.Int{}
 			}
 		}
+	case OSlt:
+		// x <s 0  (sign bit set):  x >= 2^(w-1) as an unsigned value
+		if a, b := c.A[0], c.A[1]; a.Op == OVar && b.IsConst() && b.ConstBig().Sign() == 0 {
+			l := pow2(uint(a.W) - 1)
+			if old, ok := s.VarLo[a]; !ok || l.Cmp(old) > 0 {
+				s.VarLo[a] = l
+				s.ivmemo = map[*Term][2]*big.Int{}
+			}
+		}
 	case OBNot:
 		x := c.A[0]
+		if x.Op == OSlt {
+			if a, b := x.A[0], x.A[1]; a.Op == OVar && b.IsConst() && b.ConstBig().Sign() == 0 {
+				h := new(big.Int).Sub(pow2(uint(a.W)-1), bigOne)
+				if old, ok := s.VarHi[a]; !ok || h.Cmp(old) < 0 {
+					s.VarHi[a] = h
+					s.ivmemo = map[*Term][2]*big.Int{}
+				}
+			}
+		}
 		if x.Op == OUlt { // !(a<b) == b<=a
 			s.Refine(&Term{Op: OUle, Sort: SBool, A: []*Term{x.A[1], x.A[0]}})
 		} else if x.Op == OUle {
